@@ -24,7 +24,7 @@ add("C06", "syntax", "exploration", "property-based testing: generated abstract 
     "Every generated structure, rendered in a random (quick) or exhaustively enumerated (thorough, small structures) admissible layout, parses back to exactly that structure; shrunk counter-example on failure. Sampling beyond the enumerated layouts. Identifiers draw letters by UTF-8 lead byte and by block over the whole Basic Multilingual Plane. Binary leg: generated files (also with lines around 64 KiB, bytes that are not UTF-8, odd project directory names) are given to the real CLI; what `spok --fmt` writes back must equal the rendering of the tree the parser builds from the same text in-process.",
     "Trusts the harness's renderer to emit only layouts the documentation admits (derived from the lexer's transitions and the user guide) and the projection ast->model.", "DESIGN.md §4 C06")
 add("C07", "syntax", "exploration", "bounded-exhaustive enumeration + property-based testing + coverage-guided fuzzing with a round-trip / semantic-projection oracle",
-    "All strings over the 25-symbol class alphabet up to length 5 (quick) / 6 (thorough) are enumerated completely; beyond that generated programs, permissive-grammar inputs and (thorough) native fuzzing. For each parsing input the formatted text must parse to the same semantic projection. Also: statements sharing a line, identifiers in every position x shape x about 900 letters of all scripts, stray non-UTF-8 bytes. Binary leg: generated spokfiles formatted in place by `spok --fmt` in the sandbox (from the project, from elsewhere with --spokfile, pointed at a file called Spokfile next to a different spokfile) and judged by the same projection; nothing but the target file may change; histories (format, format, append a variable and a task, format) and every line length around 64 KiB in tight and formatted spelling.",
+    "All strings over the 25-symbol class alphabet up to length 5 (quick) / 6 (thorough) are enumerated completely; beyond that generated programs, permissive-grammar inputs and (thorough) native fuzzing. For each parsing input the formatted text must parse to the same semantic projection. Also: statements sharing a line, identifiers in every position x shape x about 900 letters of all scripts, stray non-UTF-8 bytes. Binary leg: generated spokfiles formatted in place by `spok --fmt` in the sandbox (from the project, from elsewhere with --spokfile, pointed at a file called Spokfile next to a different spokfile) and judged by the same projection; nothing but the target file may change; histories (format, format, append a variable and a task, format) and every line length around 64 KiB in tight and formatted spelling; a file that does not parse must be refused byte for byte; a read-only spokfile; a standard output nobody reads.",
     "Semantic projection (variables, values, tasks, dependencies, outputs, commands; commands up to trailing blanks) is the harness's reading of 'what a spokfile does'.", "DESIGN.md §4 C07")
 add("C08", "syntax", "exploration", "bounded-exhaustive enumeration + property-based testing (prefix truncation, biased bytes) + fuzzing; crash/stall attribution through a shared-memory progress area",
     "Every class-alphabet string up to the bound, every byte prefix of generated programs, biased byte strings, permissive-grammar inputs with stray tokens, `%` strings, multi-line strings and lines of about 64 KiB: parsed twice in watchdogged worker processes; no crash, no stall, equal results, located error text.",
@@ -40,7 +40,7 @@ add("C16", "syntax", "exploration", "bounded-exhaustive enumeration + property-b
 
 CACHE_NOTE = "The recording shell.Runner is the ground truth of execution; every run step is a fresh parse + file.New + SpokFile.Run (what a new process does); the reference model is a map task -> dependency snapshot at last observed success."
 add("C01", "runinproc", "exploration", "stateful property-based testing against a reference model (history generation + shrinking) plus bounded-exhaustive action sequences",
-    "Random histories (1-3 task programs mixing literal, glob and task dependencies; edits, reverts, deletes, multi-task / failing / forced runs, cache removal; dependencies that are symbolic links, dangling links among glob matches, directories reachable only through a link, project directories with glob / format meta characters in their names) and every action sequence up to length 4 (quick) / 6 (thorough) over three fixed two-task programs: no task is ever reported skipped unless its dependency snapshot equals the one of its last observed success. Plus scenario templates (establish / perturb / special run / restore / run twice; matched sets that empty, shrink, grow or are swapped after forced and unforced successes) and a binary leg (incremental runs through the CLI, also with a linked spokfile, from elsewhere with --spokfile, and with edits of same-named files outside the project).",
+    "Random histories (1-3 task programs mixing literal, glob and task dependencies; edits, reverts, deletes, multi-task / failing / forced runs, cache removal; dependencies that are symbolic links, dangling links among glob matches, directories reachable only through a link, project directories with glob / format meta characters in their names) and every action sequence up to length 4 (quick) / 6 (thorough) over three fixed two-task programs: no task is ever reported skipped unless its dependency snapshot equals the one of its last observed success. Plus scenario templates (establish / perturb / special run / restore / run twice; matched sets that empty, shrink, grow or are swapped after forced and unforced successes) the same histories pinned to two CPUs and to one (taskset), started from varying working directories, with leftovers of other processes in the cache directory; and a binary leg (incremental runs through the CLI, also with a linked spokfile, from elsewhere with --spokfile, and with edits of same-named files outside the project).",
     CACHE_NOTE, "DESIGN.md §4 C01")
 add("C02", "runinproc", "exploration", "stateful property-based testing against a reference model (converse predicate of C01) plus bounded-exhaustive action sequences",
     "Same histories: an executed task in an unforced run never has inputs equal to its last success (unless tainted by a later failure or cache removal); tasks without file dependencies are never skipped.",
@@ -63,27 +63,27 @@ add("C18", "hashing", "fault_enumeration", "fault injection by construction (mis
     "A crash or 20 s stall of the shard process is attributed to the list published in the shared-memory progress area and confirmed by a solo replay. Vanishing files may yield either outcome.", "DESIGN.md §4 C18")
 
 SB_NOTE = "The built binary runs as uid 65534 inside a throw-away sandbox tree (needs root to chown/setuid; otherwise it runs as the invoking user). "
-add("C17", "cli", "exploration", "bounded-exhaustive enumeration of directory chains x start x stop against a reference walk (differential), stall detection by watchdog",
-    "Every chain of depth <= 3 (quick) / 4 (thorough) with 8 per-level configurations and two child-name orders x every start x every stop incl. an unrelated directory: file.Find terminates and returns the nearest regular spokfile not above stop, else an error.",
+add("C17", "cli", "exploration", "bounded-exhaustive enumeration of directory chains x start x stop against a reference walk (differential), stall detection by watchdog, plus a shard run as an unprivileged user over directory modes",
+    "Every chain of depth <= 3 (quick) / 4 (thorough) with 8 per-level configurations and two child-name orders x every start x every stop incl. an unrelated directory: file.Find terminates and returns the nearest regular spokfile not above stop, else an error. Long chains (16-100 levels), case variants, left-over cache directories; as uid 65534: chains of three directories x spokfile or not x mode 0755/0311/0 x start x stop, judged against the tree as built; `spok --show` from nested directories (also through symbolic links, with a stale $PWD).",
     "Find is called in-process in watchdogged shards (10 s stall limit, confirmed by a solo replay). When start is not at/below stop either a not-found error or the nearest spokfile on start's own chain is accepted. Symlinks and path spelling variants are not generated.", "DESIGN.md §4 C17")
 add("C13", "cli", "exploration", "property-based testing of the binary with a textual-substitution oracle and environment collisions by construction",
-    "Generated variable sets (string / exec / join) with names colliding with ambient environment and .env, printed through {{.NAME}} and $NAME under --json, from the project root, nested directories, and started elsewhere with relative / absolute --spokfile; odd project directory names; the probing task optionally behind a task that is reported skipped; also --vars and failing exec.",
+    "Generated variable sets (string / exec / join) with names colliding with ambient environment and .env, printed through {{.NAME}} and $NAME under --json, from the project root, nested directories, and started elsewhere with relative / absolute --spokfile; odd project directory names; the probing task optionally behind a task that is reported skipped, optionally with a command holding braces the template syntax rejects (refused, or substituted); also --vars and failing exec.",
     SB_NOTE + "Values avoid both quote characters so that the probing commands stay valid shell; references to later-defined variables are out of scope.", "DESIGN.md §4 C13")
 add("C12", "cli", "exploration", "property-based testing of the binary with a whole-sandbox before/after snapshot (frame condition + protected set + completeness)",
-    "Random project trees x spokfiles declaring literal, named and glob outputs incl. ones that evaluate to '', '.', '..'; `spok --clean` must remove exactly the designated paths and .spok, never the spokfile, its directory or anything above; with a clean task only that task runs. Tasks may also read (file / glob dependencies) what other tasks declare as outputs. Project directory names with meta characters and generated invocation styles (--spokfile ./spokfile, from the parent, from a sibling directory, relative and absolute).",
+    "Random project trees x spokfiles declaring literal, named and glob outputs incl. ones that evaluate to '', '.', '..'; `spok --clean` must remove exactly the designated paths and .spok, never the spokfile, its directory or anything above; with a clean task only that task runs. Tasks may also read (file / glob dependencies) what other tasks declare as outputs; one of the patterns may be one the glob syntax rejects (refusing is accepted). Project directory names with meta characters and generated invocation styles (--spokfile ./spokfile, from the parent, from a sibling directory, relative and absolute).",
     SB_NOTE + "When an output designates the project or above, aborting or skipping it are both accepted; outputs beside (not above) the project are not generated.", "DESIGN.md §4 C12")
 
 add("C09", "cli", "exploration", "property-based testing of the binary with a side-effect log as ground truth, followed by a second run (history of length two)",
-    "Generated spokfiles with failing commands at any position (statuses 1..255) under each of {plain, --quiet, --json, --force and combinations}: the invocation exits non-zero and names a failing task; the next unforced run never reports a failed task skipped, never succeeds, and re-executes a sole failing task. Variants: a primed (populated) cache, tasks started through the default / clean task, failures of external programs and by signal, a cache that is read-only during the failing run, a dependency that vanishes before it, tasks added to the spokfile after the cache was created.",
+    "Generated spokfiles with failing commands at any position (statuses 1..255) under each of {plain, --quiet, --json, --force and combinations}: the invocation exits non-zero and names a failing task; the next unforced run never reports a failed task skipped, never succeeds, and re-executes a sole failing task. Variants: a primed (populated) cache, tasks started through the default / clean task, failures of external programs and by signal, a cache that is read-only during the failing run, a dependency that vanishes before it, tasks added to the spokfile after the cache was created, task names that differ by case only, command lines that are not valid shell behind a failing one.",
     SB_NOTE + "Whether later commands/tasks still run after a failure is a don't-care; which of several failing tasks is named is free.", "DESIGN.md §4 C09")
 add("C10", "cli", "fault_enumeration", "fault injection by construction: SIGKILL from inside every task position, at every file-system system call (strace inject), every byte prefix of the cache file, inside model-based histories checked against a reference cache model",
     "Histories over the C01 universe with kill -9 of spok (a) from inside any task of the run order, (b) on entering its N-th openat/write/rename/close/fsync/mkdir/unlink system call for every N (strace fault injection: every crash point between two file-system operations), and (c) truncation of cache.json to prefixes (all byte lengths for two fixed programs in the thorough tier, every 7th in quick), each followed by continuations of edits/reverts and an unforced run: no wrongly skipped task ever, and after a fault either normal behaviour or an explicit error that mentions the cache (never a Go panic). The killed / failing run is also started from another directory (which has a spokfile and cache of its own) with --spokfile, and with the cache file or cache directory read-only for its duration.",
     SB_NOTE + "Process death only (no power loss / reordering of unsynced writes). Crash points are system-call entries, task positions and cache-file prefixes, not every machine instruction. Needs strace for (b); without it that leg is skipped and noted in the evidence.", "DESIGN.md §4 C10 and §10")
 add("C19", "cli", "exploration", "property-based testing of the binary with a whole-HOME before/after snapshot against the write-set each action permits",
-    "Random trees x valid/invalid/absent spokfiles x every flag subset of {--show,--vars,--fmt,--init,--force,--quiet,--json,--debug} and task names, from root and nested cwd: every created/modified/removed path lies in the permitted set, --fmt output equals the in-process formatter, --init never overwrites and only appends to .gitignore. Also: spokfile as a symbolic link into another directory, --spokfile from elsewhere, --spokfile naming a file called Spokfile (must be refused without writing), editor-style bystander files, earlier invocations of the same kind with an edit of a matched dependency in between (declared outputs present throughout), `--init` combined with `--spokfile`.",
+    "Random trees x valid/invalid/absent spokfiles x every flag subset of {--show,--vars,--fmt,--init,--force,--quiet,--json,--debug} and task names, from root and nested cwd: every created/modified/removed path lies in the permitted set, --fmt output equals the in-process formatter, --init never overwrites and only appends to .gitignore. Also: spokfile as a symbolic link into another directory, --spokfile from elsewhere, --spokfile naming a file called Spokfile (must be refused without writing), editor-style bystander files, earlier invocations of the same kind with an edit of a matched dependency in between (declared outputs present throughout), `--init` combined with `--spokfile`, read-only .gitignore files, odd project directory names.",
     SB_NOTE + "Task commands are restricted to side-effect-free ones so that every change is spok's own.", "DESIGN.md §4 C19")
 add("C20", "cli", "exploration", "property-based testing of the binary: reports compared with a side-effect log and a skip model over action sequences",
-    "Generated spokfiles and action sequences: --json is exactly one document with the run's tasks in execution order, skipped flags, interpolated command text, exact stdout/stderr/status; --quiet prints nothing; --show / --vars list every task / variable once, sorted, with docstring / value; no arguments runs default or lists. With and without a .env file, started in the project, in a sub-directory (also one holding a directory called spokfile), or elsewhere with --spokfile; variables that are also named outputs.",
+    "Generated spokfiles and action sequences: --json is exactly one document with the run's tasks in execution order, skipped flags, interpolated command text, exact stdout/stderr/status; --quiet prints nothing; --show / --vars list every task / variable once, sorted, with docstring / value; no arguments runs default or lists. With and without a .env file, started in the project, in a sub-directory (also one holding a directory called spokfile), or elsewhere with --spokfile; variables that are also named outputs; names exactly one or two tab stops long; a reported run with a read-only cache.",
     SB_NOTE + "--quiet together with --json/--show is a don't-care; ANSI styling is stripped; table cells are compared after whitespace normalisation.", "DESIGN.md §4 C20")
 
 NOT_YET = {}
